@@ -58,7 +58,7 @@ type params struct {
 }
 
 func (*prop) Cases(seed int64, tier string) []core.Case {
-	nc, n, depth := 8, 60, 4
+	nc, n, depth := 24, 100, 4
 	if tier == "thorough" {
 		nc, n, depth = 64, 300, 5
 	}
